@@ -151,12 +151,64 @@ def harness(ctx, k, op, shim_dict=True, twin=False):
     raise symex.HarnessError(f"unknown op {op}")
 
 
+def h_seq(ctx, K, shim_dict=True):
+    """K operations through the public API on ONE tracker object, starting from a fresh one: the object may
+    carry more state than `lost_segments` from call to call (the one-step harness cannot see that)"""
+    w = World(ctx)
+    t = destmod.LostSegmentTracker()
+    if shim_dict:
+        t.lost_segments = getattr(destmod, "dict", dict)(t.lost_segments)
+    x = ctx.int("x")
+    hist = []
+
+    def model(xx):
+        v = False
+        for kind, lo, hi in hist:
+            inside = sand(lo <= xx, xx < hi)
+            v = sor(v, inside) if kind == "add" else sand(v, snot(inside))
+        return v
+    for i in range(K):
+        cur = _post_ranges(t)
+        op = ctx.pick(f"op{i}", ["add", "remove_inside", "remove_outside", "coalesce"])
+        if op == "coalesce":
+            t.coalesce_lost_segments()
+            post = _post_ranges(t)
+            _check_invariant(ctx, post, strict_gap=True)
+        else:
+            lo, hi = ctx.int(f"lo{i}"), ctx.int(f"hi{i}")
+            ctx.assume(lo >= 0, lo < hi)
+            if op == "add":
+                for a, b in cur:
+                    ctx.assume(sor(hi <= a, b <= lo))
+                t.add_lost_segment((lo, hi))
+                hist.append(("add", lo, hi))
+            elif op == "remove_inside":
+                if not cur:
+                    ctx.end("infeasible")
+                ctx.assume(sor(*[sand(a <= lo, hi <= b) for a, b in cur]))
+                r = t.remove_lost_segment((lo, hi))
+                ctx.prop("remove_inside_returns_true", r is True or r == True)  # noqa: E712
+                hist.append(("rem", lo, hi))
+            else:
+                for a, b in cur:
+                    ctx.assume(sor(hi <= a, b <= lo))
+                r = t.remove_lost_segment((lo, hi))
+                ctx.prop("remove_outside_returns_false", r is False or r == False)  # noqa: E712
+            post = _post_ranges(t)
+            _check_invariant(ctx, post)
+        ctx.note(i, op, post)
+        ctx.covered(f"step{i}:{op}")
+        ctx.prop("sequence_denotation", _den(post, x) == model(x),
+                 lambda: {"sig": f"after operation {i} ({op}) the tracked ranges do not denote added minus removed"})
+        ctx.prop("count_matches", t.num_lost_segments == len(post))
+
+
 # --------------------------------------------------------------------------- plan
 from vf.explore import Spec  # noqa: E402
 
 KR = {"quick": 4, "thorough": 7}
 BOUNDS = {
-    "quick": "at most 4 tracked ranges before the operation; all range bounds, operation arguments and the witness are unbounded integers",
+    "quick": "at most 4 tracked ranges before the operation; all range bounds, operation arguments and the witness are unbounded integers; plus every sequence of 4 operations (add / remove inside / remove outside / coalesce, unbounded integer arguments under the property's preconditions) on one tracker object starting fresh",
     "thorough": "at most 7 tracked ranges before the operation; all range bounds, operation arguments and the witness are unbounded integers; run with the dict shim and with the builtin dict (all keys symbolic)",
 }
 OUTSIDE = ("histories in which more than Kr ranges are tracked at once; removals that straddle the START of a "
@@ -184,6 +236,10 @@ def plan(tier):
                 specs.append(Spec(f"trk/{op}/k={k}/{'shim' if shim else 'builtin'}-dict",
                                   "vf.harness.c18:harness", {"k": k, "op": op, "shim_dict": shim},
                                   twin_share=1.0, obligations=obl))
+        ks = 4 if tier == "quick" else 5
+        specs.append(Spec(f"trk/sequence/K={ks}/{'shim' if shim else 'builtin'}-dict", "vf.harness.c18:h_seq",
+                          {"K": ks, "shim_dict": shim}, twin_share=0.2,
+                          obligations=["step2:add", "step2:remove_inside", "step3:coalesce"]))
     return specs
 
 MANIFEST = {
